@@ -8,10 +8,14 @@ or executed by Python: method bodies are walked by this module.
 """
 import ast
 import itertools
+import sys
 from typing import Any, Dict, List, Optional
 
 from .astutil import dotted, src, walk_shallow
 from .model import AnalysisError, Repo, Func, Class
+
+
+sys.setrecursionlimit(max(sys.getrecursionlimit(), 30000))
 
 
 class Uninterpretable(AnalysisError):
@@ -102,7 +106,7 @@ BUILTIN_EXC = {"ValueError", "TypeError", "KeyError", "IndexError", "AttributeEr
 
 
 class Interp:
-    def __init__(self, repo: Repo, hooks=None, max_depth=12, max_steps=200000):
+    def __init__(self, repo: Repo, hooks=None, max_depth=80, max_steps=200000):
         self.repo = repo
         self.hooks = hooks or {}
         self.max_depth = max_depth
@@ -233,6 +237,8 @@ class Interp:
                     return mem[name]
             if name == "__name__":
                 return obj.name
+            if name == "__wrapped__":
+                return obj
             if self.repo.has_cls(obj.name):
                 c = self.repo.cls(obj.name)
                 m = self.repo.lookup_method(c, name)
@@ -246,9 +252,13 @@ class Interp:
             raise Raised("AttributeError", f"NoneType.{name}")
         if isinstance(obj, Opaque):
             return Opaque(f"{obj.what}.{name}")
-        if isinstance(obj, (list, tuple, dict, set, str)) and name in (
-                "append", "extend", "items", "keys", "values", "get", "pop", "add", "update", "upper", "lower",
-                "format", "join", "startswith", "strip", "index", "count"):
+        if isinstance(obj, (list, tuple, dict, set, str)) and hasattr(obj, name):
+            return ("pymethod", obj, name)
+        if isinstance(obj, slice) and name in ("start", "stop", "step"):
+            return getattr(obj, name)
+        if isinstance(obj, slice) and name == "indices":
+            return ("pymethod", obj, name)
+        if isinstance(obj, _Gen) and name == "__next__":
             return ("pymethod", obj, name)
         raise Uninterpretable(f"attribute {name} on {type(obj).__name__}")
 
@@ -447,6 +457,11 @@ class Interp:
             raise Raised("ZeroDivisionError")
         raise Uninterpretable(f"operator {type(op).__name__}")
 
+    def _is_strenum(self, v: EnumVal):
+        if not self.repo.has_cls(v.cls):
+            return False
+        return "str" in self.repo.cls(v.cls).bases
+
     def _is_intenum(self, v: EnumVal):
         if not self.repo.has_cls(v.cls):
             return False
@@ -526,9 +541,9 @@ class Interp:
             return a is b
         if isinstance(b, Obj):
             return self.equals(b, a, depth)
-        if isinstance(a, EnumVal) and self._is_intenum(a) and not isinstance(b, EnumVal):
+        if isinstance(a, EnumVal) and not isinstance(b, EnumVal) and (self._is_intenum(a) or self._is_strenum(a)):
             return a.value == b
-        if isinstance(b, EnumVal) and self._is_intenum(b) and not isinstance(a, EnumVal):
+        if isinstance(b, EnumVal) and not isinstance(a, EnumVal) and (self._is_intenum(b) or self._is_strenum(b)):
             return b.value == a
         if isinstance(a, Opaque) or isinstance(b, Opaque):
             raise Uninterpretable("equality of opaque values")
@@ -571,7 +586,8 @@ class Interp:
                             return ("bound", m2.funcs[iname], None)
             if n.id in BUILTIN_EXC or n.id in ("len", "min", "max", "abs", "type", "isinstance", "str", "int", "sum",
                                                "any", "all", "sorted", "reversed", "list", "tuple", "zip", "range",
-                                               "enumerate", "set", "bool", "iter", "next", "repr", "dict", "frozenset"):
+                                               "enumerate", "set", "bool", "iter", "next", "repr", "dict", "frozenset", "hash", "slice",
+                                               "getattr", "hasattr", "object", "print", "id"):
                 return ("builtin", n.id)
             raise Uninterpretable(f"name {n.id} in {func.qual if func else '?'}")
         if t is ast.Attribute:
@@ -636,8 +652,23 @@ class Interp:
                 stp = self.eval(n.slice.step, env, func, depth) if n.slice.step else None
                 if isinstance(o, Opaque):
                     return Opaque("slice")
-                return o[lo:hi:stp]
+                if isinstance(o, Obj):
+                    m = self.method(o, "__getitem__")
+                    if m is None:
+                        raise Raised("TypeError", "not subscriptable")
+                    return self.call_func(m, [slice(lo, hi, stp)], {}, o, depth + 1)
+                if isinstance(o, _Gen):
+                    o = o.items
+                try:
+                    return o[lo:hi:stp]
+                except TypeError as ex:
+                    raise Raised("TypeError", str(ex))
             k = self.eval(n.slice, env, func, depth)
+            if isinstance(o, Obj):
+                m = self.method(o, "__getitem__")
+                if m is None:
+                    raise Raised("TypeError", "not subscriptable")
+                return self.call_func(m, [k], {}, o, depth + 1)
             if isinstance(o, ClassTok) and self.is_enum_class(o.name):
                 mem = self.enum(o.name)
                 if k in mem:
@@ -653,6 +684,8 @@ class Interp:
                     return o[k]
                 except IndexError:
                     raise Raised("IndexError")
+                except TypeError as ex:
+                    raise Raised("TypeError", str(ex))
             if isinstance(o, Opaque):
                 return Opaque("item")
             raise Uninterpretable(f"subscript on {type(o).__name__}")
@@ -745,10 +778,41 @@ class Interp:
             return self.eval(lam.body, env2, func, depth + 1)
         if isinstance(f, tuple) and f and f[0] == "pymethod":
             _, o, name = f
-            if name in ("format", "join"):
+            if name == "format":
+                if all(isinstance(a, (str, int, bool, type(None))) for a in list(args) + list(kwargs.values())):
+                    return o.format(*args, **kwargs)
                 return Opaque("str")
+            if name == "join":
+                items = self.iterate(args[0])
+                if all(isinstance(a, str) for a in items):
+                    return o.join(items)
+                return Opaque("str")
+            if name in ("extend", "update") and args and isinstance(args[0], _Gen):
+                args = [args[0].items] + list(args[1:])
+            if isinstance(o, list) and name in ("index", "count", "remove") and args and isinstance(args[0], (Obj, EnumVal)):
+                hits = [i for i, x in enumerate(o) if self.equals(x, args[0], depth)]
+                if name == "count":
+                    return len(hits)
+                if not hits:
+                    raise Raised("ValueError", "not in list")
+                if name == "index":
+                    return hits[0]
+                del o[hits[0]]
+                return None
+            if isinstance(o, dict) and name in ("get", "pop", "setdefault") and args and isinstance(args[0], (Obj, EnumVal)):
+                for kk in list(o.keys()):
+                    if self.equals(kk, args[0], depth):
+                        args = [kk] + list(args[1:])
+                        break
+            if name == "sort" and isinstance(o, list):
+                o[:] = self.builtin("sorted", [o], kwargs, func, depth)
+                return None
             try:
                 return getattr(o, name)(*args, **kwargs)
+            except TypeError as ex:
+                raise Raised("TypeError", str(ex))
+            except ValueError as ex:
+                raise Raised("ValueError", str(ex))
             except KeyError:
                 raise Raised("KeyError")
             except (IndexError,):
@@ -800,7 +864,7 @@ class Interp:
             return ClassTok(type(v).__name__)
         if name == "isinstance":
             v, c = args
-            cs = c if isinstance(c, tuple) else (c,)
+            cs = c if isinstance(c, tuple) and not (len(c) == 2 and c[0] == "builtin") else (c,)
             for k in cs:
                 if isinstance(k, ClassTok):
                     vn = v.cls_name if isinstance(v, Obj) else v.cls if isinstance(v, EnumVal) else type(v).__name__
@@ -813,9 +877,39 @@ class Interp:
                         return True
             return False
         if name == "str" or name == "repr":
-            if args and isinstance(args[0], (int, str)):
-                return str(args[0])
+            if not args:
+                return ""
+            v = args[0]
+            if isinstance(v, (int, str)) and not isinstance(v, bool):
+                return str(v)
+            if isinstance(v, (Obj, EnumVal)):
+                m = self.method(v, "__str__" if name == "str" else "__repr__")
+                if m is not None:
+                    return self.call_func(m, [], {}, v, depth + 1)
+                if isinstance(v, EnumVal):
+                    return f"{v.cls}.{v.name}"
+            if v is None or isinstance(v, bool):
+                return str(v)
+            if isinstance(v, (list, tuple)) and all(isinstance(x, (int, str)) for x in v):
+                return str(v)
             return Opaque("str")
+        if name == "hash":
+            return Opaque("hash")
+        if name == "slice":
+            return slice(*args)
+        if name == "getattr":
+            try:
+                return self.getattr(args[0], args[1], func, depth)
+            except Raised:
+                if len(args) > 2:
+                    return args[2]
+                raise
+        if name == "hasattr":
+            try:
+                self.getattr(args[0], args[1], func, depth)
+                return True
+            except Raised:
+                return False
         if name == "int":
             return int(args[0])
         if name == "bool":
